@@ -62,6 +62,8 @@ def one_script(ctx, r, depth, big=0):
             if label not in ("compact",) and e1[:len(pre_events)] != pre_events:
                 if not (label == "plan" and strip_times(e1[:len(pre_events)]) == strip_times(pre_events)):
                     ctx.violation("C03 acknowledged events lost after %s in %s" % (fault, label), "the log no longer starts with the events recorded before the crash", {"trace": trace}); return
+            if label == "compact" and crash.timeless(g1["graph"]) != crash.timeless(g0["graph"]):
+                ctx.violation("C03 acknowledged work lost after %s in compact" % fault, str(fndiff.first_difference(crash.timeless(g0["graph"]), crash.timeless(g1["graph"])))[:300], {"trace": trace}); return
             extra = e1[len(pre_events):] if label != "compact" else []
             if strip_times(extra) != strip_times(own[:len(extra)]):
                 ctx.violation("C03 foreign events after %s in %s" % (fault, label), "events appeared that the interrupted command would not have written", {"trace": trace}); return
@@ -131,6 +133,12 @@ def stale_tmp(ctx, r):
                     g1 = c.graph()
                     if "err" in g1 or crash.reads_ok(c):
                         ctx.violation("C03 reads fail after kill in %s" % label, crash.reads_ok(c) or g1.get("err", "")[:200], {"trace": t2}); return
+                    # everything acknowledged before the kill is still in effect: a rewrite publishes with one rename or not at all
+                    lost = [t["id"] for t in g0["graph"]["tasks"] if not oracles.task_of(g1["graph"], t["id"])]
+                    if lost or (label == "compact" and crash.timeless(g1["graph"]) != crash.timeless(g0["graph"])):
+                        ctx.violation("C03 acknowledged work lost after kill in %s" % label,
+                                      "killed before its call %d (%s): %s" % (k, strace.summarize(steps[:k])[-1] if k > 1 else "-", ("items %s are gone" % lost[:5]) if lost else
+                                                                              str(fndiff.first_difference(crash.timeless(g0["graph"]), crash.timeless(g1["graph"])))[:300]), {"trace": t2}); return
                     rr = c.exec(["--json", "compact"])
                     t2.append({"argv": ["--json", "compact"], "stdin": None})
                     prob = crash.reads_ok(c)
